@@ -87,6 +87,12 @@ def corpus_cases(prop, prefix):
     return out
 
 
+def new_violations(run):
+    """violations that are not known findings (a known finding must not hide a broken obligation)"""
+    known = run.load_known()
+    return [v for v in run.violations if not [k for k in known if k[0] == run.prop and re.fullmatch(k[1], v["sig"])]]
+
+
 def model_lines(run, lines, tag):
     p = os.path.join(run.scratch, "conc-%s.txt" % tag)
     open(p, "w").write("".join(l + "\n" for l in lines))
@@ -253,10 +259,18 @@ def check(run):
     tlib, texe = build_tsan(run)
     ops_w, _, _ = calibrate(run, lib, INI_WIDE, "calib-wide")
     out = model_lines(run, ["enum\t2\t1\t%s\t1\t100000" % ops_w], "tsan-plans")
-    _, _, sc = parse_scheds(out[0])
-    if quick:
-        # one-preemption schedules: thread A stopped at every lock boundary while B runs a whole call; every second one in the quick tier
-        sc = sc[::2]
+    _, _, sc_all = parse_scheds(out[0])
+    # corpus first: "tsan-preempt <thread> <k>" = that thread is stopped after k of its lock-boundary steps while the other one runs a whole call
+    first = []
+    for line in corpus_cases("C09", "tsan-preempt\t"):
+        f = line.split("\t")
+        t, k = int(f[1]), int(f[2])
+        for s in sc_all:
+            if len(s["ids"]) > k and all(x == t for x in s["ids"][:k]) and s["ids"][k] != t and s not in first:
+                first.append(s)
+                break
+    # one-preemption schedules: thread A stopped at every lock boundary while B runs a whole call; every second one in the quick tier
+    sc = first + [s for s in (sc_all[::2] if quick else sc_all) if s not in first]
     tenv = {"TSAN_OPTIONS": "exitcode=0 report_signal_unsafe=0 second_deadlock_stack=1"}
     tres = forced_campaign(run, tlib, INI_WIDE, ops_w, [(2, 1, s) for s in sc], "t", exe=texe, env=tenv, want_tsan=True, workers=8)
     tsan_seen = {}
@@ -289,7 +303,7 @@ def check(run):
             rep.update({"failing_input": {"mode": "stress", "run": where, "tsan": True}, "mode": "stress-tsan"})
         run.violation("tsan:%s:%s:%s" % (kind.replace(" ", "-"), f, fn), "sanitizer",
                       "ThreadSanitizer: %s in %s (%s) while two threads were inside wrapped exec calls" % (kind, fn, f), rep)
-    if not ok and not run.violations:
+    if not ok and not new_violations(run):
         run.violation("proof:%s" % failed, "proof", "proof obligation no longer checks: %s\n%s" % (failed, log[-1500:]), {"theorem": failed, "coq_log": log[-3000:]})
     run.coverage.update({
         "evaluations": len(dcases) + nrun + len(tres) + nstress,
